@@ -1,0 +1,13 @@
+//go:build verif
+
+// Contracts for package grammar, read by /verif/govc (contract-based deductive verification).
+// Comments and pure specification functions only; compiled only with -tags verif.
+package grammar
+
+// ---------------------------------------------------------------------------------------------
+// C14: map iteration order
+
+//@ func (*Grammar).CalculateCanTerminate
+//@ props C14
+//@ order_only
+//@ loop 3: order_assumed only the emptiness of the result decides anything (generation is refused when it is non-empty); its order shows only in the diagnostic printed to stdout
